@@ -153,16 +153,16 @@ pub fn post_check<S: Sut>(map: &S, model: &Model, before: &St<S>, op: Op, uni: &
     if map.is_empty() != (model.len() == 0) {
         out.push(Viol::new("C04", S::IS_EMPTY_SITE, "is_empty-vs-model", format!("is_empty()={} model has {} entries", map.is_empty(), model.len())));
     }
-    if fatal {
-        return (out, None);
-    }
-    // C01/C03/C18: contents
+    // C01/C03/C18: contents (the iteration is capped, so this is safe even on a cyclic structure)
     let got = map.entries();
     if n != got.len() && n == model.len() {
         out.push(Viol::new("C04", S::LEN_SITE, "len-vs-iter-count", format!("len()={} iter().count()={}", n, got.len())));
     }
     if let Some(v) = compare_entries(S::ITER_SITE, &got, &model.entries()) {
         out.push(v);
+    }
+    if fatal {
+        return (out, None);
     }
     // C16 allocation discipline
     if d.arena_len > before.walk.arena_len && !d.free.is_empty() {
